@@ -24,8 +24,8 @@ RULE = ("Coq: Properties/C30.v over Nrepl.v (transition system of nrepl.rs: read
         "on a stream, was interrupted/closed, or shared its session queue with another in-flight request.")
 META = {
     "technique": "Coq invariants over a small-step model of the nREPL threads + trace validation of the real server against the extracted model + socket-level property check under randomised schedules",
-    "level_text": ("Coq theorems (all reachable states of Nrepl.step = all interleavings, any request sequence, both code "
-                   "variants): one_done_per_id (<= 1 `done` per id on channel and socket, none for unreceived ids, exactly "
+    "level_text": ("Coq theorems (all reachable states of Nrepl.step = all interleavings, any request sequence, all three "
+                   "code variants of the model): one_done_per_id (<= 1 `done` per id on channel and socket, none for unreceived ids, exactly "
                    "one at quiescence), quiescent_is_stuck, done_is_last_for_id, out_before_done, "
                    "output_complete_in_order (per stream, concatenation of chunks before `done` = printed text), "
                    "sessions_isolated. Assumptions named in Nrepl.v: FIFO linearizable mpsc, mutex exclusion, SeqCst "
@@ -269,12 +269,18 @@ def sess_index(name):
 
 
 def events_to_labels(evs):
-    """Returns (labels, ids, ptexts, uses_fix): ids[r] = client id of the r-th request; ptexts[t] = text of print token t."""
+    """Returns (labels, ids, ptexts, variant): ids[r] = client id of the r-th request; ptexts[t] = text of print
+    token t; variant = code variant of coq/Nrepl.v the binary announces (0 as found, 1 fix-1, 2 fix-1+fix-2)."""
     labels, ids, ptexts = [], [], []
-    uses_fix = any(e[1:3] == ["rd", "closed"] or (e[1] == "w" and e[3:4] == ["ldc"]) for e in evs)
+    uses_fix = 1 if any(e[1:3] == ["rd", "closed"] or (e[1] == "w" and e[3:4] == ["ldc"]) for e in evs) else 0
+    for e in evs:
+        if e[1] == "proto" and len(e) > 2 and e[2].isdigit():
+            uses_fix = int(e[2])
     n = len(evs)
     for i, e in enumerate(evs):
         kind = e[1]
+        if kind == "proto":
+            continue
         if kind == "eof":
             break
         if kind == "recv":
@@ -381,7 +387,7 @@ def replay_logs(ctx, mdl, rounds):
             ctx.stat("log_missing")
             continue
         labels, ids, ptexts, fx = events_to_labels(evs)
-        lines.append("nrepl_replay\t%d\t%s" % (1 if fx else 0, " ".join(labels)))
+        lines.append("nrepl_replay\t%d\t%s" % (fx, " ".join(labels)))
         meta.append((rd, labels, ids, ptexts))
     if ctx.stats.get("log_missing"):
         ctx.broken("hook:nrepl-event-log", "%d of %d server runs produced no H4 event log (hook.diff not applied?)"
